@@ -2,6 +2,7 @@ package nexus
 
 import (
 	"context"
+	"encoding/binary"
 	"fmt"
 	"net/http"
 	"sync"
@@ -61,6 +62,10 @@ type Client struct {
 	subscriberCache map[string]*Subscriber
 	nteCache        map[string]*NTE
 	ispCache        map[string]*ISPConfig
+
+	// allocMu serialises IP allocation so that the collision check in
+	// allocateFromPool and the record update form one step.
+	allocMu sync.Mutex
 
 	// Callbacks for state changes
 	onSubscriberChange func(id string, sub *Subscriber, deleted bool)
@@ -485,6 +490,9 @@ func (c *Client) GetSubscriberByMAC(mac string) (*Subscriber, bool) {
 // If the subscriber already has an IP, it returns that IP.
 // Otherwise, it allocates from the subscriber's assigned pool.
 func (c *Client) AllocateIPForSubscriber(ctx context.Context, subscriberID string) (string, error) {
+	c.allocMu.Lock()
+	defer c.allocMu.Unlock()
+
 	// Get subscriber
 	sub, ok := c.GetSubscriber(subscriberID)
 	if !ok {
@@ -557,21 +565,33 @@ func (c *Client) allocateFromPool(ctx context.Context, pool *IPPool, subscriberI
 		return "", fmt.Errorf("pool %s has no usable addresses", pool.ID)
 	}
 
-	// Hash subscriber ID to get deterministic offset
+	// Addresses already held by other subscribers
+	used := make(map[string]bool)
+	c.mu.RLock()
+	for id, sub := range c.subscriberCache {
+		if id != subscriberID && sub.IPv4Addr != "" {
+			used[sub.IPv4Addr] = true
+		}
+	}
+	c.mu.RUnlock()
+
+	// Hash subscriber ID to get deterministic offset, then probe linearly
+	// past addresses that another subscriber holds.
 	hash := hashString(subscriberID)
-	offset := int(hash%uint64(numHosts)) + 1 // +1 to skip network address
+	start := int(hash % uint64(numHosts))
+	base := binary.BigEndian.Uint32(baseIP)
+	for i := 0; i < numHosts; i++ {
+		offset := (start+i)%numHosts + 1 // +1 to skip network address
 
-	// Calculate IP
-	ip := make([]byte, 4)
-	copy(ip, baseIP)
+		ip := make([]byte, 4)
+		binary.BigEndian.PutUint32(ip, base+uint32(offset))
 
-	// Add offset to base IP
-	ip[3] += byte(offset & 0xFF)
-	ip[2] += byte((offset >> 8) & 0xFF)
-	ip[1] += byte((offset >> 16) & 0xFF)
-	ip[0] += byte((offset >> 24) & 0xFF)
+		if addr := formatIP(ip); !used[addr] {
+			return addr, nil
+		}
+	}
 
-	return formatIP(ip), nil
+	return "", fmt.Errorf("pool %s exhausted", pool.ID)
 }
 
 // LookupSubscriberIP looks up the pre-allocated IP for a subscriber.
